@@ -5,6 +5,7 @@
 //! The case being executed is recorded in `current.txt` so that a crash is attributed to its input.
 
 use crate::c01::{random_crop, random_size};
+use crate::with_pixel_type;
 use crate::rcase::*;
 use crate::util::*;
 use crate::views::*;
@@ -165,6 +166,72 @@ pub fn generate(out: &mut Out, seed: u64, thorough: bool, _outdir: &str) {
         let line = format!("{} fill=a5 got={} guard={} check=nopanic", prefix, got, if in_guard { "in" } else { "out" });
         let k = fnv(line.as_bytes());
         out.push(line, Some(k));
+    }
+    // zero-sized and tiny images on buffers of every length and misalignment through the byte-buffer constructors, and then
+    // *used*: an image a constructor accepts must be usable by every safe API without a panic
+    {
+        use fir::images::{Image, ImageRef};
+        let mut backing = vec![0u64; 64];
+        let mut md = fir::MulDiv::new();
+        let mut rz = Resizer::new();
+        for &pt in ALL_TYPES.iter() {
+            let psize = pt.size();
+            let align = with_pixel_type!(pt, P => std::mem::align_of::<P>());
+            for &(w, h) in &[(0u32, 0u32), (0, 5), (5, 0), (1, 1), (2, 3)] {
+                let need = w as usize * h as usize * psize;
+                for &len in &[0usize, 1, psize, need, need + 1, need + psize, 200] {
+                    for mis in 0..4usize {
+                        for kind in ["image_ref", "image_slice"] {
+                            let bytes: &mut [u8] = unsafe { std::slice::from_raw_parts_mut((backing.as_mut_ptr() as *mut u8).add(mis), len) };
+                            let mut used = String::from("-");
+                            let r: Result<Result<(), String>, String> = catch(|| match kind {
+                                "image_ref" => ImageRef::new(w, h, bytes, pt).map(|_| ()).map_err(|e| format!("err:{:?}", e)),
+                                _ => Image::from_slice_u8(w, h, bytes, pt).map(|_| ()).map_err(|e| format!("err:{:?}", e)),
+                            });
+                            let got = match &r {
+                                Ok(Ok(())) => "ok".to_string(),
+                                Ok(Err(e)) => e.clone(),
+                                Err(p) => format!("panic:{}", p.replace(' ', "_")),
+                            };
+                            if got == "ok" {
+                                let u = catch(|| {
+                                    let mut log = Vec::new();
+                                    if kind == "image_ref" {
+                                        let src = ImageRef::new(w, h, bytes, pt).unwrap();
+                                        let mut dst = Image::new(3, 2, pt);
+                                        log.push(rz.resize(&src, &mut dst, None).is_ok());
+                                        let mut dst2 = Image::new(w, h, pt);
+                                        log.push(md.multiply_alpha(&src, &mut dst2).is_ok());
+                                        log.push(md.divide_alpha(&src, &mut dst2).is_ok());
+                                        log.push(fir::change_type_of_pixel_components(&src, &mut dst2).is_ok());
+                                        log.push(fir::create_srgb_mapper().forward_map(&src, &mut dst2).is_ok());
+                                    } else {
+                                        let src = Image::new(3, 2, pt);
+                                        let mut dst = Image::from_slice_u8(w, h, bytes, pt).unwrap();
+                                        log.push(rz.resize(&src, &mut dst, None).is_ok());
+                                        log.push(md.multiply_alpha_inplace(&mut dst).is_ok());
+                                        log.push(md.divide_alpha_inplace(&mut dst).is_ok());
+                                        log.push(fir::create_gamma_22_mapper().forward_map_inplace(&mut dst).is_ok());
+                                        let src2 = Image::new(w, h, pt);
+                                        log.push(fir::change_type_of_pixel_components(&src2, &mut dst).is_ok());
+                                        let _ = dst.copy();
+                                    }
+                                    log.iter().map(|b| if *b { '1' } else { '0' }).collect::<String>()
+                                });
+                                used = match u {
+                                    Ok(l) => format!("done:{}", l),
+                                    Err(p) => format!("panic:{}", p.replace(' ', "_")),
+                                };
+                            }
+                            out.count(&format!("ctor-then-use:{}:{}:{}", kind, got.split(':').next().unwrap(), used.split(':').next().unwrap()));
+                            let line = format!("ctor kind={} pt={} psize={} W={} H={} len={} mis={} align={} got={} use={}", kind, pt_name(pt), psize, w, h, len, mis, align, got, used);
+                            let k = fnv(line.as_bytes());
+                            out.push(line, Some(k));
+                        }
+                    }
+                }
+            }
+        }
     }
     let _ = PixelType::U8;
 }
